@@ -153,12 +153,12 @@ def job(shapes, full):
     t = core.Tally()
     for s in shapes:
         if full:
-            check_shape(t, s)
+            core.guard(t, "C14", {"engine": "E2", "module": MOD, "shape": s}, check_shape, t, s)
         else:
             m = tree.Model.from_shape(s)
             dom = (ABSENT, "x", None)
             asg = [a for a in itertools.product(dom, repeat=m.n) if sum(1 for v in a if v != "x") <= 2]
-            check_shape(t, s, asg, full=False)
+            core.guard(t, "C14", {"engine": "E2", "module": MOD, "shape": s}, check_shape, t, s, asg, full=False)
     return t
 
 
